@@ -30,7 +30,18 @@ func RunWrapSession(seed int64, idx int, heavy bool, onStep func(s *Session, st 
 	}
 	g := s.G
 	n := 12000 + s.Rng.Intn(900)
-	trunk := g.Extend(g.Genesis, n, chaingen.PaceMixed)
+	// Around height 10 000 (where a list filled from genesis wraps): six
+	// steadily paced headers, five slow ones (their timestamps jump ahead),
+	// then headers that each go back to one second after their median-time-
+	// past. The 3-4 headers from 10 000 on are then the SMALLEST of the last
+	// eleven, so the median of just those few is lower than the true median:
+	// a header exactly at the true median is invalid, but would pass if the
+	// walk over the in-memory window were cut short at the wrap position.
+	trunk := g.Extend(g.Genesis, 9988, chaingen.PaceMixed)
+	trunk = append(trunk, g.Extend(trunk[len(trunk)-1], 6, chaingen.PaceNormal)...)
+	trunk = append(trunk, g.Extend(trunk[len(trunk)-1], 5, chaingen.PaceSlow)...)
+	trunk = append(trunk, g.Extend(trunk[len(trunk)-1], 6, chaingen.PaceBack)...)
+	trunk = append(trunk, g.Extend(trunk[len(trunk)-1], n-10005, chaingen.PaceMixed)...)
 	if idx%2 == 0 {
 		g.SetCheckpoints(trunk[len(trunk)-1], int32(500+s.Rng.Intn(400)), int32(6000+s.Rng.Intn(300)))
 	}
@@ -74,6 +85,7 @@ func RunWrapSession(seed int64, idx int, heavy bool, onStep func(s *Session, st 
 	}
 	// Feed the trunk in protocol-sized batches (checkpoints cut batches short:
 	// re-send from the stored tip).
+	badWrapDone := false
 	for guard := 0; guard < 40; guard++ {
 		t := s.TipNode()
 		if t == nil {
@@ -85,6 +97,23 @@ func RunWrapSession(seed int64, idx int, heavy bool, onStep func(s *Session, st 
 		to := int(t.Height) + wire.MaxBlockHeadersPerMsg
 		if to > n {
 			to = n
+		}
+		if !badWrapDone && int(t.Height) < 9000 && to >= 10000 && to <= 10004 {
+			to = 9000 + s.Rng.Intn(500) // shift the batch boundary away from the wrap position
+		}
+		if !badWrapDone && int(t.Height) < 10000 && to > 10004 && len(g.P.Checkpoints) == 0 {
+			// One message that runs over the wrap position and then carries a
+			// header violating the median-time rule, 1-4 headers later.
+			badWrapDone = true
+			j := 3 + s.Rng.Intn(2)
+			base := trunk[10000+j-2] // node at height 10000+j-1
+			if bad := g.InvalidAtMTP(base); bad != nil {
+				batch := append(append([]*chaingen.Node(nil), trunk[t.Height:10000+j-1]...), bad)
+				if ok, err := step("ext-bad-mtp", sync(), batch); !ok || err != nil {
+					return s, err
+				}
+				continue
+			}
 		}
 		if ok, err := step("ext", sync(), trunk[t.Height:to]); !ok || err != nil {
 			return s, err
